@@ -352,7 +352,7 @@ func (fc *faultCase) faultActions() []Action {
 	return as
 }
 
-// reinstateActions: (wipe,) reinstate, follow-up commits, status. Returns the follow-up steps and the final model.
+// reinstateActions: (wipe,) reinstate, follow-up commits, status, in-process dump. Returns the follow-up steps and the final model.
 func reinstateActions(v variant, from Model, tag int) ([]Action, []Step, Model) {
 	var as []Action
 	if v.Wipe {
@@ -362,7 +362,7 @@ func reinstateActions(v variant, from Model, tag int) ([]Action, []Step, Model) 
 	fsteps := followUps(from, v.Follow, tag)
 	fa, mf := stepActions(from, fsteps)
 	as = append(as, fa...)
-	as = append(as, act("status"))
+	as = append(as, act("status"), act("dump"))
 	return as, fsteps, mf
 }
 
@@ -553,22 +553,23 @@ func (c *checker) afterReinstate(fc *faultCase, v variant, p *proc, rc []Result,
 	}
 	want := mFinal.dump()
 	ctxs := fmt.Sprintf("%s; %s [%s]", at, v, histString(fsteps))
-	rs5, err := p.run([]Action{act("dump"), act("failover"), act("dump")})
+	if ad := rc[i+len(fsteps)+1]; ad.Active != "a" || ad.Dump != want {
+		c.violate("C|active-dump-differs-after-reinstate|"+vs+"|last="+lk, fmt.Sprintf("%s: active(%s) dump in the reinstating process = %s ; model = %s", ctxs, ad.Active, ad.Dump, want), replay)
+		return
+	}
+	// fresh process with cold caches: fail over, dump the passive folder
+	rs5, err := p.run([]Action{act("failover"), act("dump")})
 	run.Add("processes", 1)
 	if err != nil {
 		c.violate("C|failover-process-died|"+vs+"|last="+lk, ctxs+": "+err.Error(), replay)
 		return
 	}
-	if rs5[0].Active != "a" || rs5[0].Dump != want {
-		c.violate("C|active-dump-differs-after-reinstate|"+vs+"|last="+lk, fmt.Sprintf("%s: active(%s) dump = %s ; model = %s", ctxs, rs5[0].Active, rs5[0].Dump, want), replay)
-		return
-	}
-	if rs5[1].Err != "" {
-		c.violate("C|failover-error|"+vs+"|last="+lk, ctxs+": fs.TriggerFailover: "+rs5[1].Err, replay)
+	if rs5[0].Err != "" {
+		c.violate("C|failover-error|"+vs+"|last="+lk, ctxs+": fs.TriggerFailover: "+rs5[0].Err, replay)
 		return
 	}
 	clean := true
-	c.checkPassiveDumpC(vs, "failover-process", lk, rs5[2], want, ctxs+" (failover process)", replay, &clean)
+	c.checkPassiveDumpC(vs, "failover-process", lk, rs5[1], want, ctxs+" (failover process)", replay, &clean)
 	if mode == "same" && !c.thorough {
 		// quick tier: the second fresh process after failover is only run for the "fresh" variants
 		if clean {
@@ -710,7 +711,7 @@ func finishEvidence(run *ev.Run, dom domain) {
 	run.Set("distinct_nontrivial", get("histories")+get("fault_cases_fired"))
 	run.Set("rule", "Part A: "+dom.desc+"; the set is prefix-closed, so every prefix of every history is checked; each history runs in its own OS process, then fresh processes dump the active side, fail over with fs.TriggerFailover and dump the passive side, and dump it again from one more fresh process. "+
 		"Part B: for every history, every k in [0, number of file operations with a path under the passive folder during the last step of the fault-free reference run): EIO on every passive-folder file operation from the k-th on (sticky) during the last step. "+
-		fmt.Sprintf("Part C: for every such case in which replication was reported off, each variant of %v: ReinstateFailedDrives with faults cleared, follow-up commits (add / updrem on the first store), then a fresh process dumps the active side, fails over and dumps the passive side, and (quick: only for reinstate_in=fresh; thorough: always) one more fresh process dumps again. ", dom.variants)+
+		fmt.Sprintf("Part C: for every such case in which replication was reported off, each variant of %v: ReinstateFailedDrives with faults cleared, follow-up commits (add / updrem on the first store) and an active-side dump in that process, then a fresh process (cold caches) fails over and dumps the passive side, and (quick: only for reinstate_in=fresh; thorough: always) one more fresh process dumps again. ", dom.variants)+
 		"distinct_nontrivial = histories + fault cases in which the injected fault actually fired (all tuples are distinct by construction).")
 	run.Assumption("sop.TaskRunner tasks run inline in launch order (vhook Inline) so that the file-operation sequence, and with it the fault index k, is deterministic; concurrency between replication tasks is not explored")
 	run.Assumption("L2 cache is the in-memory cache of each process (no Redis): every fresh process starts with a cold cache and reads the replication status from replstat.txt")
